@@ -110,6 +110,8 @@ def ops():
         o['cbm.' + nm] = (['gid'], (lambda nm: lambda c, v: getattr(c.cbm(v['gid']), nm)())(nm))
     o['cbm.get_delegations'] = (['gid', 'node', 'val'], lambda c, v: c.cbm(v['gid']).get_delegations(node_id=v['node'], adm_id=v['val'], delegation_type=DelegationType.LABEL))
     o['cbm.unmerge_adm'] = (['gid', 'val'], lambda c, v: c.cbm(v['gid']).unmerge_adm(graph_id=v['val']))
+    # ... where the stored nodes were contributed by exactly the model being removed (so they are deleted)
+    o['cbm.unmerge_adm/own-nodes'] = (['gid', 'val'], lambda c, v: c.cbm(v['gid']).unmerge_adm(graph_id=v['val']))
     o['cbm.snapshot'] = (['gid'], lambda c, v: c.cbm(v['gid']).snapshot())
     o['cbm.rollback'] = (['gid', 'gid2'], lambda c, v: c.cbm(v['gid']).rollback(graph_id=v['gid2']))
     o['adm.rewrite_delegations'] = (['gid', 'val'], lambda c, v: Neo4jADMGraph(graph_id=v['gid'], importer=c.imp).rewrite_delegations(real_adm_id=v['val']))
@@ -140,6 +142,9 @@ def run_op(op, values, mode='rich', deviate=None):
         c.imp.driver.default_mode = mode
         c.imp.driver.deviate = deviate or {}
         err = None
+        from fimmc import envdrv as _ed
+        _ed.ANSWER['node'] = values.get('@node', 'n1')
+        _ed.ANSWER['adm'] = values.get('val', 'a1') if op.endswith('/own-nodes') else 'a1'
         try:
             OPS[op][1](c, values)
         except Exception as e:
@@ -151,8 +156,9 @@ def run_op(op, values, mode='rich', deviate=None):
 
 def eval_op(case):
     op = case[0]
-    positions = OPS[op][0]
-    base_vals = {p: f'{p}-id' for p in positions}
+    # value positions: the call's arguments, plus '@node' = a node id the database reports back (a stored value too)
+    positions = list(OPS[op][0]) + ['@node']
+    base_vals = {p: ('n1' if p == '@node' else f'{p}-id') for p in positions}
     v = []
     seen_fp = set()
 
@@ -180,7 +186,8 @@ def eval_op(case):
                 vals = dict(base_vals)
                 if p == '*':
                     for q in positions:
-                        vals[q] = w
+                        if q != '@node':
+                            vals[q] = w
                 else:
                     vals[p] = w
                 calls, _ = run_op(op, vals, mode, dev)
